@@ -4,7 +4,19 @@ import AtreeProofs.Props.TransMapDescentTopRemove
   WP13 (map descent, Remove, EVERY branch): the generated `MapSlab_Remove` over a heap (`envD cfg.T eb rs`) is the
   translation of the model's `MTree.remove` on every path - store, `SplitChildSlab`, `MergeOrRebalanceChildSlab` - for ANY
   restructuring record `rs` whose calls behave as the model's (`MRSplitTail`, `MRMorTail`: pointwise TAIL hypotheses,
-  quantified only over what the descent produces), and the top level `OrderedMap_remove` under `MRRootTail`.
+  quantified only over what the descent produces: `MRPre`), and the top level `OrderedMap_remove` under `MRRootTail`.
+  * `I : (d : Nat) → MTree r d → Prop` is a PARAMETER: the invariant of subtrees the restructuring calls rely on (sizes,
+    flags, first keys ...).  The tails quantify only over children satisfying `I` and promise `I` of their result; the
+    theorems ask that `I` is kept along the descent (`MRInvClosed`).  (A tail over ALL records would be false: e.g. a
+    child whose model `root` flag is set while the heap record carries no extra data.)
+  * `MRAllocOk`: allocated identifiers lie below the counter of the `Ctx`; without it the freshness of the identifiers a
+    split generates (hence the distinctness of the identifiers of the new tree) cannot be established.
+  * `MRStep h h' I I'` (frame / gone / fresh) composes (`MRStep.trans`, `MRStep.ctx`); `MRPost` = `MHolds` of the new tree
+    + `MRStep` + distinct identifiers + child headers = headers of the children.
+  * FINDING (top level): after `OrderedMap.remove` WITHOUT promotion / root split the root record STORED in a heap of
+    values still carries the OLD extra data (count not decremented): Go's `decrementCount` mutates the slab the storage
+    points to and no `Store` follows.  `Ob_OrderedMap_remove_heap_of_tails` therefore states `MHolds` with the stored
+    extra data `xh`, `xh = some (md_extra m)` (stale) or `some (md_extra m')`.
   Helper names: `mdr_` / `MR`.
 -/
 namespace Atree.TransEq
@@ -185,7 +197,8 @@ variable {r : Nat} (I : (d : Nat) → MTree r d → Prop)
     hands out `⟨addr, ctr + 1⟩`), so a newly generated identifier is unallocated -/
 def MRAllocOk (s : MHSt r) : Prop := ∀ id, s.heap id ≠ none → id.idx ≤ s.ctx.ctr
 
-/-- what the descent has established (besides the allocator invariant `MRAllocOk s1`) when it calls `SplitChildSlab` / `MergeOrRebalanceChildSlab` on the receiver `m1`
+/-- what the descent has established (besides the allocator invariant `MRAllocOk s1`) when it calls `SplitChildSlab` /
+    `MergeOrRebalanceChildSlab` on the receiver `m1`
     (= the index slab with the returned child written back at position `k`, NOT yet stored) over the storage `s1`:
     `child'` is child `k` of `m1`; the child headers are the headers of the children; the identifiers of `m1` are pairwise
     distinct; the heap holds every child subtree of `m1` (the returned `child'` included, its root too); the size of
